@@ -198,6 +198,21 @@ func canon(c *harness.Ctx) {
 					}
 				}
 			}
+			if k > 0 && c.Choose(3, "failed-serialization-first") == 2 {
+				// "earlier use of the library": a serialization that fails half-way (an entity with an
+				// illegal enum constant) right before this one must leave no trace in its output
+				if bad, ok := poisoned(call.Args); ok {
+					w.net.setCur(-1, nil)
+					func() {
+						defer func() { recover() }()
+						in := append([]reflect.Value{reflect.ValueOf(bgCtx)}, bad...)
+						rets := call.client.MethodByName(call.Method + "WithContext").Call(in)
+						if e := rets[len(rets)-1]; !e.IsNil() {
+							c.Probe("failed-serialization-before")
+						}
+					}()
+				}
+			}
 			w.net.setCur(-1, call)
 			call.Inv, call.Filt = nil, nil
 			dt.req, dt.resp = nil, nil
@@ -209,7 +224,10 @@ func canon(c *harness.Ctx) {
 					}
 				}()
 				in := append([]reflect.Value{reflect.ValueOf(bgCtx)}, args...)
-				call.client.MethodByName(call.Method + "WithContext").Call(in)
+				rets := call.client.MethodByName(call.Method + "WithContext").Call(in)
+				if e := rets[len(rets)-1]; !e.IsNil() && dt.req == nil {
+					dt.req = []byte("client error before sending: " + e.Interface().(error).Error())
+				}
 			}()
 			simrt.Order = nil
 			if simrt.Permuted > before {
@@ -243,6 +261,57 @@ func canon(c *harness.Ctx) {
 	w.net.setCur(-1, nil)
 	c.Digest(digest.Sum64())
 	kern.S = nil
+}
+
+// poisoned returns a copy of args in which the first enum found inside the last argument is set to
+// an illegal constant, so that marshalling it fails after part of the value was written.
+func poisoned(args []reflect.Value) ([]reflect.Value, bool) {
+	if len(args) == 0 {
+		return nil, false
+	}
+	out := append([]reflect.Value(nil), args...)
+	last := deepCopy(args[len(args)-1])
+	var poison func(v reflect.Value) bool
+	poison = func(v reflect.Value) bool {
+		switch v.Kind() {
+		case reflect.Ptr, reflect.Interface:
+			if v.IsNil() {
+				return false
+			}
+			return poison(v.Elem())
+		case reflect.Struct:
+			// later fields first: the more has been written before the failure, the better
+			for i := v.NumField() - 1; i >= 0; i-- {
+				if v.Type().Field(i).IsExported() && poison(v.Field(i)) {
+					return true
+				}
+			}
+		case reflect.Slice:
+			for i := v.Len() - 1; i >= 0; i-- {
+				if poison(v.Index(i)) {
+					return true
+				}
+			}
+		case reflect.Map:
+			for _, k := range sortedKeys(v) {
+				e := v.MapIndex(k)
+				if e.Kind() == reflect.Ptr && poison(e) {
+					return true
+				}
+			}
+		case reflect.Int32:
+			if _, ok := v.Type().MethodByName("IsValid"); ok && v.CanSet() {
+				v.SetInt(0)
+				return true
+			}
+		}
+		return false
+	}
+	if !poison(last) {
+		return nil, false
+	}
+	out[len(out)-1] = last
+	return out, true
 }
 
 // diffSite says where two serializations first differ: request line, headers or body.
